@@ -280,7 +280,7 @@ func cmdCheck(args []string) int {
 	}
 	ex := NewExec(prog, specs)
 	ex.genLimit = 5 * time.Minute   // the slowest function on the unchanged tree needs about 25 s
-	ex.genSlowMax = 5 * time.Minute // (after one function has used up its limit, the others get a tenth of it)
+	ex.genSlowMax = 3 * time.Minute // (after one function has used up its limit, the others get a tenth of it)
 	if *tier == "thorough" {
 		ex.genLimit = 20 * time.Minute
 		ex.genSlowMax = 20 * time.Minute
